@@ -35,7 +35,8 @@ def run(tier):
             for k in range(2 if quick else 4):
                 try:
                     v = vg.obj(cls, body)
-                except Exception:
+                except Exception as ex:
+                    C.harness_failure('value-generation', f"{t['name']} {cls}: {type(ex).__name__}: {ex}")
                     continue
                 jobs.append(dict(op='immut', cls=cls, value=v, arrays=arrays, poison=poison))
         entries.append(dict(name=t['name'], tree=t['tree'], jobs=jobs, want_sources=True))
@@ -43,11 +44,17 @@ def run(tier):
     recover_stream(C, entries, 'c19')
     C.cov['tie']['generated classes (structure)'] = ('translation validation: tools/gen2instr.py recovers the instruction lists of every generated serialize / deserialize / __init__ from the SOURCE TEXT (fail-closed) and Model/Recover.v compares them with elab of the same tree (vm_compute): the theorems about the elaborated instruction lists apply to the code as emitted, for all objects and bytes')
     n = nd = 0
+    nde = {}
     ser_cases = {}
     for e in entries:
         for job, out in zip(e['jobs'], e['result'].get('results', [])):
             if 'problems' not in out:
-                continue
+                continue      # harness / construction failures of this job were reported by run_entries (fail closed)
+            if out['ser'][0] != 'ok':
+                C.violation(f"tree '{e['name']}', class {job['cls']}: a valid instance does not serialize ({out['ser'][:2]}), so nothing about its snapshots could be observed",
+                            dict(unit='generated class', input=dict(tree=e['name'], xml=tree_xml(e['tree']), cls=job['cls'], value=job['value'])))
+            if 'deser_error' in out:
+                nde[out['deser_error']] = nde.get(out['deser_error'], 0) + 1
             n += 1
             nd += 'reser' in out
             for p in out['problems'][:1]:
@@ -57,7 +64,9 @@ def run(tier):
             if out['ser'][0] == 'ok':
                 ser_cases.setdefault(id(e), (e, []))[1].append(f"GSer {cs(job['cls'])} {cvalue(job['value'])} false (Ok tt, {clist(out['ser'][1])}, false)")
     C.stream('oracle.immutability', n, n, sample=dict(tree=entries[0]['name']))
-    C.cov['distribution'] = dict(instances_constructed=n, instances_deserialized=nd)
+    C.cov['distribution'] = dict(instances_constructed=n, instances_deserialized=nd, own_serialization_not_deserializable=nde)
+    if n and nd * 10 < n * 8:
+        C.harness_failure('deserialized-instances', f"only {nd} of {n} instances could be deserialized from their own serialization: {nde}")
     items = [(e['tree'], True, cases[:120]) for e, cases in ser_cases.values() if e['result'].get('accepted')]
     try:
         fl = run_tree_cases('c19', items)
